@@ -53,7 +53,7 @@ def getRule : Sexp → Option Rule
   | _ => none
 
 def putGeom (g : PageGeom) : Sexp :=
-  .list [.atom "geom", ofRat g.sheetW, ofRat g.sheetH, ofRat g.h.mA, ofRat g.h.inner, ofRat g.h.mB,
+  .list [.atom "geom", ofRat (g.h.mA + g.h.inner + g.h.mB), ofRat (g.v.mA + g.v.inner + g.v.mB), ofRat g.h.mA, ofRat g.h.inner, ofRat g.h.mB,
          ofRat g.v.mA, ofRat g.v.inner, ofRat g.v.mB]
 
 def putPages (rules : List Rule) : List Page → List Int → List Sexp
